@@ -472,6 +472,13 @@ def gen_C03(rng, tier):
             if 16 + n * len(t) < 2 ** 25:
                 cases.append("bigwalk %d %s" % (n, hx(t)))
                 dist["many_tags"] = dist.get("many_tags", 0) + 1
+    # after-panic histories, deterministic: on every region with a corrupted size the same iterator is polled 12 times
+    # (the calls behind the first panic included), then nth(0), then a clone of it is polled
+    for b in pool:
+        if len(b) <= 200:
+            ops = "[ 0 ] " + " ".join(["[ 1 0 ]"] * 12) + " [ 3 0 0 ] [ 2 0 ] [ 1 1 ] [ 1 1 ]"
+            cases.append("iters %s [ %s ]" % (hx(b), ops))
+            dist["histories"] += 1
     # iterator histories
     n_hist = 6000 if tier == "thorough" else 200
     for _ in range(n_hist):
@@ -786,6 +793,13 @@ def gen_C15(rng, tier):
             t = (E.u16(typ) + E.u16(rng.choice([0, 1])) + E.u32(s) + bytes(body))[:n]
             cases.append("hdr " + hx(E.header([t, E.htag(6, 0, b"")])))
             dist["builtin_header_kinds"] = dist.get("builtin_header_kinds", 0) + 1
+    # what a typed view hands out lies inside the tag: palettes against the colour count, ELF tables against count x size
+    cases += palette_family(dist)
+    elf = [c for c in gen_C19(random.Random(rng.getrandbits(32)), tier)[0] if c.startswith("mbi ")]
+    if tier == "quick" and len(elf) > 400:
+        elf = random.Random(rng.getrandbits(32)).sample(elf, 400)
+    cases += elf
+    dist["elf_tables"] = len(elf)
     # BootInformation::get_tag::<T>() with user-defined T: the tag of T's ID absent / first / behind others / twice, every size 8..40
     # a slice longer than the tag it starts with (ref_from_slice takes the size from the header, not from the slice)
     for size in range(8, 41):
@@ -846,7 +860,7 @@ def neutralise(typ, body):
 
 
 PROPS.update({
-    "C15": dict(gen=gen_C15, configs=["dev", "rel"], judge=judge_projection(["cast", "get", "load", "get_user", "ref_from_slice", "information_request_tag", "tags"]), both_placements=True,
+    "C15": dict(gen=gen_C15, configs=["dev", "rel"], judge=judge_projection(["cast", "get", "load", "get_user", "ref_from_slice", "information_request_tag", "tags", "framebuffer", "elf", "elf_section", "elf_end"]), both_placements=True,
                 assumptions=["user-defined types of the harness (dom_cast.rs) declare BASE_SIZE = offset of the tail and dst_len = (size - BASE_SIZE)/element size"]),
 })
 
@@ -1173,6 +1187,12 @@ def gen_C04(rng, tier):
         if r.random() < 0.2:
             tags.insert(r.randrange(len(tags) + 1), g.custom())
         cases.append(mbi_case(dirty_padding(E.mbi(tags), rng, 0.7)))
+    # framebuffer tags without any colour information (size 32) for every type byte; with 1..5 bytes of it for the known types
+    for b in list(range(0, 8)) + [0x7F, 0x80, 0xFE, 0xFF]:
+        cases.append(mbi_case(E.mbi([E.t_framebuffer(0x3000, 7, 8, 9, 24, b, b"", 0)])))
+        for n in (1, 2, 5, 6, 7):
+            cases.append(mbi_case(E.mbi([E.t_framebuffer(0x3000, 7, 8, 9, 24, b, bytes(range(1, n + 1)), 0)])))
+        count(dist, "framebuffer_without_colour_info")
     # long regions: the first tag of a kind only after 22..60 custom and module tags (a getter must walk everything)
     for k in g.KINDS:
         nb = g.r.choice([22, 23, 24, 33, 60])
@@ -1682,6 +1702,12 @@ def gen_C09(rng, tier):
                 b = b[:len(b) - cut] if cut else b
                 cases.append("find 0 " + hx(b))
                 count(dist, "find_header")
+    # a buffer that ends inside the basic header found (4..16 bytes behind the magic): nothing behind the buffer is read
+    hdrb = E.header([E.htag(4, 0, E.u32(1)), E.htag(6, 0, b"")])
+    for idx in (0, 8, 64, 8176):
+        for rem in range(4, 17):
+            cases.append("find 0 " + hx(bytes(idx) + hdrb[:rem]))
+            count(dist, "find_header_truncated")
     # the header-crate structures obtained from a slice (ref_from_slice): declared sizes around the slice length
     for h in (2, 4):
         hs = 16 if h == 4 else 8
